@@ -298,6 +298,24 @@ def run_case(case, t, V, W, tree_ctx=None):
             goal = d.and_(*([d.eq(a, b) for a, b in zip(si, wi)] + [d.eq(a, b) for a, b in zip(fi, rep_ids)])) if ok else d.FALSE
             goals.append(Goal(f'{case.name}: TransformedParameter() == log-Jacobian at the current value (before and after an update)',
                               goal, signature=f'TransformedParameter.__call__:{case.sig}'))
+            # optimiser idiom on a separate parameter: in-place write into the held tensor + change notification
+            p3 = Parameter('p3', cm.var_tensor(V, xn))
+            tp3 = TransformedParameter('tp3', p3, case.make(V))
+            _ = tp3()
+            _ = tp3.tensor
+            p3.tensor[...] = cm.var_tensor(V, [f'u{j}' for j in range(case.dim)])
+            p3.fire_parameter_changed()
+            third = tp3()
+            xu = cm.var_tensor(V, [f'u{j}' for j in range(case.dim)])
+            y3 = tf(xu)
+            want3 = tf.log_abs_det_jacobian(xu, y3)
+            w3 = (want3._ids.reshape(-1).tolist() if isinstance(want3, SymTensor) else [d.const(float(v)) for v in want3.reshape(-1).tolist()])
+            t3 = (third._ids.reshape(-1).tolist() if isinstance(third, SymTensor) else [d.const(float(v)) for v in third.reshape(-1).tolist()])
+            g3 = d.and_(*[d.eq(a, b) for a, b in zip(t3, w3)]) if len(t3) == len(w3) else d.FALSE
+            tv3 = tp3.tensor._ids.reshape(-1).tolist()
+            g3 = d.and_(g3, *[d.eq(a, b) for a, b in zip(tv3, y3._ids.reshape(-1).tolist())])
+            goals.append(Goal(f'{case.name}: after an in-place update + fire_parameter_changed, TransformedParameter() and .tensor follow the new value',
+                              g3, signature=f'TransformedParameter:in-place-update:{case.sig}'))
             tvals = tp.tensor._ids.reshape(-1).tolist()
             goals.append(Goal(f'{case.name}: TransformedParameter.tensor == forward(current x)',
                               d.and_(*[d.eq(a, b) for a, b in zip(tvals, y2._ids.reshape(-1).tolist())]),
@@ -312,6 +330,8 @@ def numeric_check(make_tf, xvals, has_inverse, has_logdet, elementwise, ydim_cro
     import torch.autograd.functional as AF
 
     x = torch.tensor(xvals, dtype=torch.float64)
+    if (x.abs() > 300).any():
+        return False, 'counterexample at an overflowing magnitude (outside float range)'
     tf = make_tf()
     try:
         y = tf(x)
@@ -350,13 +370,14 @@ def simple_task(name, tr):
     tr.fn(TransformedParameter.__call__, TransformedParameter._apply_transform, TransformedParameter.handle_parameter_changed)
     W = {f'x{j}': 0.4 + 0.35 * j for j in range(case.dim)}
     W.update({f'z{j}': -0.3 + 0.45 * j if 'Log' not in name else 0.8 + 0.3 * j for j in range(case.dim)})
+    W.update({f'u{j}': 0.25 + 0.3 * j for j in range(case.dim)})
     if 'Affine' in name:
         W.update({'loc': 1.5, 'scale': -2.0})
 
     def domain(d, V):
         cs = case.domain(d, V)
         if 'LogTransform' in name:
-            cs += [d.lt(0, V[k]) for k in V if k.startswith('z')]
+            cs += [d.lt(0, V[k]) for k in V if k.startswith(('z', 'u'))]
         return cs
 
     ex = Explorer(W, domain, lambda t, V, Wt: run_case(case, t, V, Wt), tr, max_regions=20, timeout=40.0,
@@ -419,6 +440,29 @@ def tree_task(task, tr):
             gs.append(d.and_(*[d.eq(a, b) for a, b in zip(gi, wi)]) if len(gi) == len(wi) else d.FALSE)
         goals.append(Goal('ReparameterizedTimeTreeModel() == node-height log-Jacobian at the current value (before/after update)',
                           d.and_(*gs), signature=f'ReparameterizedTimeTreeModel._call:{kind}'))
+        # the same model driven by ONE Parameter that is updated in place (optimiser idiom): heights and Jacobian must follow
+        from torchtree.core.parameter import Parameter
+        from torchtree.evolution.tree_model import ReparameterizedTimeTreeModel
+
+        single = Parameter('single', cm.var_tensor(V, [f'x{j}' for j in range(dim)]))
+        if kind == 'ratio':
+            tm2 = ReparameterizedTimeTreeModel('tree2', tree.tree, tree._taxa, ratios_root_height=single)
+        else:
+            tm2 = ReparameterizedTimeTreeModel('tree2', tree.tree, tree._taxa, shifts=single)
+        C06.set_sampling_times(tm2, V, n)
+        _ = tm2()
+        _ = tm2.node_heights
+        single.tensor[...] = zs
+        single.fire_parameter_changed()
+        got_h = tm2.node_heights._ids[n:].tolist()
+        got_j = tm2()
+        want_h = tree.transform(zs)._ids.tolist()
+        want_j = tree.transform.log_abs_det_jacobian(zs, tree.transform(zs))
+        gj = got_j._ids.reshape(-1).tolist() if isinstance(got_j, SymTensor) else [d.const(float(q)) for q in got_j.reshape(-1).tolist()]
+        wj = want_j._ids.reshape(-1).tolist() if isinstance(want_j, SymTensor) else [d.const(float(q)) for q in want_j.reshape(-1).tolist()]
+        goals.append(Goal('single-Parameter tree model after an in-place update + fire_parameter_changed: heights and log-Jacobian follow the new value',
+                          d.and_(*([d.eq(a, b) for a, b in zip(got_h, want_h)] + [d.eq(a, b) for a, b in zip(gj, wj)])),
+                          signature=f'ReparameterizedTimeTreeModel:in-place-update:{kind}'))
         return goals
 
     def domain(d, V):
@@ -452,7 +496,33 @@ def tree_task(task, tr):
         if hasattr(tree.transform, 'update_bounds'):
             tree.transform.update_bounds()
         xs = [vals.get(f'x{j}', W[f'x{j}']) for j in range(dim)]
-        return numeric_check(lambda: tree.transform, xs, True, True, False)
+        ok, det = numeric_check(lambda: tree.transform, xs, True, True, False)
+        if ok:
+            return ok, det
+        # history replay: one Parameter updated in place (optimiser idiom)
+        from torchtree.core.parameter import Parameter
+        from torchtree.evolution.tree_model import ReparameterizedTimeTreeModel
+
+        zs = [vals.get(f'z{j}', W[f'z{j}']) for j in range(dim)]
+        single = Parameter('single', torch.tensor(xs, dtype=torch.float64))
+        kw = {'ratios_root_height': single} if kind == 'ratio' else {'shifts': single}
+        tm2 = ReparameterizedTimeTreeModel('tree2', tree.tree, tree._taxa, **kw)
+        tm2.sampling_times = tree.sampling_times
+        if hasattr(tm2.transform, 'update_bounds'):
+            tm2.transform.update_bounds()
+        _ = tm2()
+        _ = tm2.node_heights
+        single.tensor[...] = torch.tensor(zs, dtype=torch.float64)
+        single.fire_parameter_changed()
+        got_h = tm2.node_heights[n:]
+        got_j = tm2()
+        zt = torch.tensor(zs, dtype=torch.float64)
+        want_h = tree.transform(zt)
+        want_j = tree.transform.log_abs_det_jacobian(zt, want_h)
+        if not torch.allclose(got_h, want_h, rtol=1e-9, atol=1e-12) or not torch.allclose(got_j, want_j, rtol=1e-9, atol=1e-12):
+            return True, (f'after an in-place update + fire_parameter_changed the tree model reports heights {got_h.tolist()} / '
+                          f'log-Jacobian {float(got_j)} but the current parameter gives {want_h.tolist()} / {float(want_j)}')
+        return False, 'agree'
 
     triage(out, rp, tr, label, {'topology': cm.to_newick(topology), 'kind': kind})
 
@@ -475,6 +545,7 @@ def rate_task(task, tr):
                 sig='LogDifferenceRateTransform')
     W = {f'x{j}': 0.6 + 0.25 * j for j in range(dim)}
     W.update({f'z{j}': 0.9 + 0.15 * j for j in range(dim)})
+    W.update({f'u{j}': 0.5 + 0.2 * j for j in range(dim)})
     ex = Explorer(W, case.domain, lambda t, V, Wt: run_case(case, t, V, Wt), tr, max_regions=5, timeout=60.0,
                   label=label, check_defined=False)
     out = ex.run()
@@ -505,6 +576,9 @@ def tasks_for(tier):
         for topo in cm.rooted_topologies(n):
             for kind in ('ratio', 'shift'):
                 ts.append(('tree', topo, n, kind))
+    # 5 taxa: topologies where a node's parent index is not increasing with the node index
+    for topo in ([((0, 1), ((2, 3), 4)), (((0, 1), 2), (3, 4))] if tier == 'quick' else cm.pick_topologies(5, 'quick', quick_max=12) + [((0, 1), ((2, 3), 4))]):
+        ts.append(('tree', topo, 5, 'ratio'))
     ts.append(('rate', cm.caterpillar(3), 3))
     if tier == 'thorough':
         ts.append(('rate', cm.mirror(cm.caterpillar(3)), 3))
